@@ -421,7 +421,8 @@ class Sim:
         if not e.alive:
             return
         e.state = 'killed'
-        e.exit_code = -15 if how == 'terminate' else -9
+        # terminate: SIGTERM; kill: SIGKILL / OOM killer; exit0 / exit1: the task's code called os._exit()
+        e.exit_code = {'terminate': -15, 'kill': -9, 'exit0': 0, 'exit1': 1}.get(how, -9)
         self.quiet_polls = 0
         self.ev('kill', e.name, how, e.phase, e.node, e.phase_steps, flush_first)
         self.trace.append(('kill', e.name, how, e.phase, e.phase_steps))
